@@ -184,6 +184,26 @@ PROPS = {
                                      "aes/cfb8 crates = the Gallina AES/CFB8 (tied by every encrypted case)"],
         "assumptions": ["the connection-level switch (Login Success is the first encrypted packet) is covered by the conn cases, whose post-switch frames are decrypted by an independent cfb8 implementation in the harness"],
     },
+    "C10": {
+        "props_file": "Props/C10.v",
+        "run_files": ["Run/CaseConn.v"],
+        "imports": ["Lib.Bytes", "Codec.Desc", "Conn.Types", "Conn.Prog", "Conn.Sem1", "Run.CaseConn"],
+        "case_type": "conn_case",
+        "checkers": {"BASE": "check_c03", "C10": "check_c03"},
+        "harness": [{"bin": "conn", "env": {"VERIF_FAMILIES": "BASE,C10"}}],
+        "shard": 40,
+        "quick_scale": 1, "thorough_scale": 8, "search_factor": 4,
+        "ties": ["conn binary: real Connection::listen on a scripted transport/client/adapters in a paused runtime vs Conn.Sem1.run1 (sends, calls, outcome, virtual ms)",
+                 "Gen/PacketsGen.v descriptors decode the client's frames and encode the model's packets"],
+        "family_types": {"C10P": {"case_type": "pair_case", "imports": ["Lib.Bytes", "Run.CaseConn"], "checkers": {"C10P": "check_c10_pair"}}},
+        "allowed_axioms": [],
+        "rule": "conn binary family C10: two-connection histories (login with/without secret, prior session cookie none/null/valid, routed or not; then a Transfer-intent connection presenting what was stored, from the same or another IP, at clock offsets 0, 5, expiry-1, expiry, expiry+1, 3*expiry); each connection is a conn_case, each history a pair_case judged on the observations alone; non-trivial = distinct case that reaches routing, or any pair",
+        "trusted_base": COMMON_TB + ["Conn/Prog.v: hand transcription of Connection::listen into the program datatype (tied by the conn correspondence: every case compares the model's sends, adapter calls, outcome and virtual times with the real Connection::listen)",
+                                     "Conn/Sem1.v: frame-level semantics incl. a hand model of tokio 1.49 Interval (MissedTickBehavior::Skip), validated by every timed conn case",
+                                     "RSA PKCS#1 v1.5, serde_json, uuid generation, SystemTime: oracles recorded per case / universally quantified in the theorems",
+                                     "monitor on the implementation's trace: observable events are the implementation's, unobservable ones (frame consumption, fresh values) are aligned from the model's run"],
+        "assumptions": ["frames delivered atomically (segmentation is C08's subject)", "event times distinct from tick instants and adapter completions"],
+    },
 }
 
 
